@@ -190,6 +190,77 @@ def write_evidence(prop, tier, seed, outs, wall, meta, level="model_checking"):
         json.dump(ev, f, indent=1)
 
 
+def _run_one_mirsym(o, tier, seed):
+    try:
+        return o["run"](dict(o, _tier=tier), tier, seed)
+    except Exception as e:  # engine defect => inconclusive, never success
+        import traceback
+        traceback.print_exc()
+        return [Outcome(o["id"], o["engine"], "inconclusive", f"engine error: {e!r}")]
+
+
+def run_mirsym_group(m_obls, tier, seed, jobs):
+    """The E2 obligations of a property are independent single-threaded computations: each runs in a
+    forked child that hands its outcomes back through a pickle file (sequentially when there is one
+    obligation, when forking or pickling fails, or with VERIF_E2_SEQUENTIAL=1)."""
+    import pickle
+    import tempfile
+    if len(m_obls) <= 1 or os.environ.get("VERIF_E2_SEQUENTIAL") == "1":
+        outs = []
+        for o in m_obls:
+            outs += _run_one_mirsym(o, tier, seed)
+        return outs
+    # the MIR dump is shared: produce it once in the parent so that the children inherit the cache
+    try:
+        import e2
+        e2.context(True)
+    except Exception:
+        pass
+    width = max(1, min(len(m_obls), jobs))
+    pending = list(m_obls)
+    running = {}
+    results = {}
+    tmpdir = tempfile.mkdtemp(prefix="arroy-verif-e2out-")
+    sys.stdout.flush()
+    sys.stderr.flush()
+    while pending or running:
+        while pending and len(running) < width:
+            o = pending.pop(0)
+            path = os.path.join(tmpdir, o["id"] + ".pkl")
+            pid = os.fork()
+            if pid == 0:
+                code = 0
+                try:
+                    res = _run_one_mirsym(o, tier, seed)
+                    with open(path, "wb") as f:
+                        pickle.dump(res, f)
+                except BaseException:       # noqa: BLE001
+                    import traceback
+                    traceback.print_exc()
+                    code = 3
+                finally:
+                    sys.stdout.flush()
+                    sys.stderr.flush()
+                    os._exit(code)
+            running[pid] = (o, path)
+        pid, status = os.wait()
+        if pid not in running:
+            continue
+        o, path = running.pop(pid)
+        try:
+            with open(path, "rb") as f:
+                results[o["id"]] = pickle.load(f)
+        except Exception as e:      # noqa: BLE001
+            results[o["id"]] = [Outcome(o["id"], o["engine"], "inconclusive",
+                                        f"engine error: the obligation's process ended without a result (status {status}): {e!r}")]
+    import shutil
+    shutil.rmtree(tmpdir, ignore_errors=True)
+    outs = []
+    for o in m_obls:
+        outs += results[o["id"]]
+    return outs
+
+
 def main(argv=None):
     import registry
     ap = argparse.ArgumentParser()
@@ -220,14 +291,7 @@ def main(argv=None):
     outs += ko
     meta.setdefault("cuts", [])
     meta["cuts"] = kmeta.get("cuts", []) + meta["cuts"]
-    for o in m_obls:
-        try:
-            res = o["run"](dict(o, _tier=tier), tier, seed)
-        except Exception as e:  # engine defect => inconclusive, never success
-            import traceback
-            traceback.print_exc()
-            res = [Outcome(o["id"], o["engine"], "inconclusive", f"engine error: {e!r}")]
-        outs += res
+    outs += run_mirsym_group(m_obls, tier, seed, a.jobs)
     # ---- verdicts ----------------------------------------------------------------------
     kf = load_known_findings()
     known_lines, violations, incon = [], [], []
